@@ -266,20 +266,371 @@ fn run_c09(args: &Args, out: &mut Out) {
     }
 }
 
+
+// ------------------------------------------------------------------ C10
+fn hs_json(p: &[[u8; 32]]) -> serde_json::Value {
+    json!(p.iter().map(|h| hexs(h)).collect::<Vec<_>>())
+}
+fn coq_hs(p: &[[u8; 32]]) -> String {
+    coq_list(&p.iter().map(|h| coq_bytes(h)).collect::<Vec<_>>())
+}
+
+/// prove(i) on the storage-backed tree built from `leaves`; model must give the same
+/// (root, proof) or the same refusal; oracle: proof == RFC PATH, verify accepts.
+fn c10_prove_case(out: &mut Out, leaves: &[Vec<u8>], i: u64, class: &str) {
+    let n = leaves.len();
+    out.oracle_evaluations += 1;
+    let res = guarded(|| {
+        let mut sm = StorageMap::<Tbl>::new();
+        let mut st = binary::MerkleTree::new(&mut sm);
+        for l in leaves {
+            st.push(l).unwrap();
+        }
+        let a = st.prove(i).ok();
+        let mut im = in_memory::MerkleTree::new();
+        for l in leaves {
+            im.push(l);
+        }
+        let b = im.prove(i);
+        (a, b)
+    });
+    let rj = json!({"kind":"prove","leaves":leaves_json(leaves),"index":i});
+    match res {
+        Err(p) => out.oracle_fail("prove-panic", &format!("prove({i}) on {n} leaves panicked: {p}"), rj),
+        Ok((a, b)) => {
+            if a != b {
+                out.oracle_fail("prove-inmem-vs-storage", &format!("in-memory and storage-backed prove({i}) differ for {n} leaves"), rj.clone());
+            }
+            let hs: Vec<[u8; 32]> = leaves.iter().map(|l| sha(&[&[0u8], l])).collect();
+            if (i as usize) < n {
+                match &a {
+                    None => out.oracle_fail("prove-refused-valid-index", &format!("prove({i}) refused for {n} leaves"), rj.clone()),
+                    Some((root, proof)) => {
+                        let want_root = mth(leaves);
+                        let want_path = rfc_path(i as usize, &hs);
+                        if *root != want_root || *proof != want_path {
+                            out.oracle_fail("prove-not-rfc-path", &format!("prove({i}) for {n} leaves is not (MTH, RFC 6962 PATH)"), rj.clone());
+                        }
+                        let ok = guarded(|| binary::verify(root, &leaves[i as usize], proof, i, n as u64)).unwrap_or(false);
+                        if !ok {
+                            out.oracle_fail("proof-does-not-verify", &format!("prove({i}) for {n} leaves does not verify"), rj.clone());
+                        }
+                    }
+                }
+            } else if a.is_some() {
+                out.oracle_fail("prove-accepted-invalid-index", &format!("prove({i}) accepted for {n} leaves"), rj.clone());
+            }
+            let coq_res = match &a {
+                Some((root, proof)) => format!("(Some ({}, {}))", coq_bytes(root), coq_hs(proof)),
+                None => "None".to_string(),
+            };
+            out.push(Case {
+                coq: format!("(CProve {} {} {})", coq_leaves(leaves), i, coq_res),
+                json: json!({"kind":"prove","n":n,"index":i,"leaves":leaves_json(leaves),"ok":a.is_some()}),
+                key: format!("prove:{}:{}", n, i),
+                nontrivial: n >= 2,
+                class: class.to_string(),
+            });
+        }
+    }
+}
+
+/// verify on an arbitrary tuple; model verdict must equal Rust's; oracle: verdict ==
+/// (RFC recomputation from the tuple reaches the root).
+fn c10_verify_case(out: &mut Out, root: [u8; 32], data: &[u8], proof: &[[u8; 32]], i: u64, n: u64, class: &str) {
+    out.oracle_evaluations += 1;
+    let rj = json!({"kind":"verify","root":hexs(&root),"data":hexs(data),"proof":hs_json(proof),"index":i,"count":n});
+    let pv: Vec<[u8; 32]> = proof.to_vec();
+    match guarded(|| binary::verify(&root, &data, &pv, i, n)) {
+        Err(p) => out.oracle_fail("verify-panic", &format!("verify panicked (index {i}, count {n}, proof len {}): {p}", proof.len()), rj),
+        Ok(got) => {
+            let want = rfc_root_from_path(sha(&[&[0u8], data]), proof, i, n) == Some(root);
+            if got != want {
+                out.oracle_fail(
+                    if got { "verify-accepts-wrong-tuple" } else { "verify-rejects-valid-tuple" },
+                    &format!("verify = {got} but RFC recomputation says {want} (index {i}, count {n}, proof len {})", proof.len()),
+                    rj.clone(),
+                );
+            }
+            out.push(Case {
+                coq: format!("(CVerify {} {} {} {} {} {})", coq_bytes(&root), coq_bytes(data), coq_hs(proof), i, n, coq_bool(got)),
+                json: rj,
+                key: format!("verify:{}:{}:{}:{}", n, i, proof.len(), got),
+                nontrivial: n >= 2,
+                class: class.to_string(),
+            });
+        }
+    }
+}
+
+fn run_c10(args: &Args, out: &mut Out) {
+    let mut rng = Rng::new(args.seed);
+    if let Some(p) = &args.replay {
+        let v = read_replay(p);
+        let unhex = |x: &serde_json::Value| hex::decode(x.as_str().unwrap()).unwrap();
+        if v["kind"] == "prove" {
+            let leaves: Vec<Vec<u8>> = v["leaves"].as_array().unwrap().iter().map(unhex).collect();
+            c10_prove_case(out, &leaves, v["index"].as_u64().unwrap(), "replay");
+        } else {
+            let mut root = [0u8; 32];
+            root.copy_from_slice(&unhex(&v["root"]));
+            let proof: Vec<[u8; 32]> = v["proof"].as_array().unwrap().iter().map(|x| { let mut a = [0u8; 32]; a.copy_from_slice(&unhex(x)); a }).collect();
+            c10_verify_case(out, root, &unhex(&v["data"]), &proof, v["index"].as_u64().unwrap(), v["count"].as_u64().unwrap(), "replay");
+        }
+        return;
+    }
+    // all (n, i) for small n (+ one index beyond)
+    let maxn = args.scale(18, 64);
+    for n in 0..=maxn {
+        let leaves: Vec<Vec<u8>> = (0..n).map(|_| rng.bytes_upto(6)).collect();
+        for i in 0..=(n as u64) {
+            c10_prove_case(out, &leaves, i, "all-pairs");
+        }
+    }
+    // sampled larger trees
+    let samples = args.scale(12, 200);
+    for _ in 0..samples {
+        let n = match rng.below(3) { 0 => (1usize << rng.range(5, 9)) + rng.below(3) as usize - 1, _ => rng.range(65, 700) as usize };
+        let leaves: Vec<Vec<u8>> = (0..n).map(|_| rng.bytes_upto(3)).collect();
+        let i = match rng.below(4) { 0 => 0, 1 => n as u64 - 1, 2 => n as u64, _ => rng.below(n as u64) };
+        c10_prove_case(out, &leaves, i, "sampled");
+    }
+    // structured mutations of valid proofs
+    let muts = args.scale(60, 1500);
+    for _ in 0..muts {
+        let n = match rng.below(5) { 0 => 1, 1 => 2, 2 => (1usize << rng.range(1, 6)) + rng.below(3) as usize - 1, _ => rng.range(1, 70) as usize }.max(1);
+        let leaves: Vec<Vec<u8>> = (0..n).map(|_| rng.bytes_upto(5)).collect();
+        let i = rng.below(n as u64);
+        let hs: Vec<[u8; 32]> = leaves.iter().map(|l| sha(&[&[0u8], l])).collect();
+        let root = mth(&leaves);
+        let mut proof = rfc_path(i as usize, &hs);
+        let mut data = leaves[i as usize].clone();
+        let (mut idx, mut cnt, mut r) = (i, n as u64, root);
+        let class = match rng.below(12) {
+            0 => "valid".to_string(),
+            1 => { if !proof.is_empty() { proof.pop(); } "drop-last".into() }
+            2 => { if !proof.is_empty() { proof.remove(0); } "drop-first".into() }
+            3 => { proof.push(rng.bytes32()); "append".into() }
+            4 => { if proof.len() >= 2 { let a = rng.below(proof.len() as u64) as usize; let b = rng.below(proof.len() as u64) as usize; proof.swap(a, b); } "swap".into() }
+            5 => { if !proof.is_empty() { let a = rng.below(proof.len() as u64) as usize; proof[a][rng.below(32) as usize] ^= 1 << rng.below(8); } "flip-bit".into() }
+            6 => { idx = if rng.bool() { i + 1 } else { i.wrapping_sub(1) }; "index-off-by-one".into() }
+            7 => { cnt = if rng.bool() { n as u64 + 1 } else { n as u64 - 1 }; "count-off-by-one".into() }
+            8 => { cnt = rng.range(1, 2 * n as u64 + 2); "count-other".into() }
+            9 => { data.push(0); "data-changed".into() }
+            10 => { r[rng.below(32) as usize] ^= 1; "root-changed".into() }
+            _ => { idx = rng.below(2 * n as u64 + 1); cnt = rng.below(2 * n as u64 + 2); "random-index-count".into() }
+        };
+        c10_verify_case(out, r, &data, &proof, idx, cnt, &format!("mut-{class}"));
+    }
+    // boundary tuples: count 0/1 with non-empty proof, huge counts with short proofs
+    let z = [0u8; 32];
+    for (i, n, plen) in [(0u64, 0u64, 0usize), (0, 0, 1), (0, 1, 1), (1, 1, 0), (0, 2, 0), (5, 1u64 << 40, 40), (0, 1u64 << 62, 62), ((1u64 << 62) - 1, 1u64 << 62, 62), (3, (1u64 << 63) - 1, 63)] {
+        let proof: Vec<[u8; 32]> = (0..plen).map(|_| rng.bytes32()).collect();
+        c10_verify_case(out, z, b"x", &proof, i, n, "boundary");
+    }
+}
+
+// ------------------------------------------------------------------ C11
+#[derive(Clone, Debug)]
+enum Op {
+    Push(Vec<u8>),
+    Reset,
+    Load(u64),
+    Prove(u64),
+    Root,
+}
+
+fn op_json(o: &Op) -> serde_json::Value {
+    match o {
+        Op::Push(d) => json!({"op":"push","data":hexs(d)}),
+        Op::Reset => json!({"op":"reset"}),
+        Op::Load(k) => json!({"op":"load","count":k}),
+        Op::Prove(i) => json!({"op":"prove","index":i}),
+        Op::Root => json!({"op":"root"}),
+    }
+}
+fn op_from_json(v: &serde_json::Value) -> Op {
+    match v["op"].as_str().unwrap() {
+        "push" => Op::Push(hex::decode(v["data"].as_str().unwrap()).unwrap()),
+        "reset" => Op::Reset,
+        "load" => Op::Load(v["count"].as_u64().unwrap()),
+        "prove" => Op::Prove(v["index"].as_u64().unwrap()),
+        _ => Op::Root,
+    }
+}
+
+/// observable output of one op: Coq term + canonical string
+#[derive(Clone, PartialEq, Debug)]
+enum Obs {
+    Unit,
+    Root([u8; 32], u64),
+    Proof(Option<([u8; 32], Vec<[u8; 32]>)>),
+    LoadOk(bool),
+}
+fn obs_coq(o: &Obs) -> String {
+    match o {
+        Obs::Unit => "OUnit".into(),
+        Obs::Root(r, c) => format!("(ORoot {} {})", coq_bytes(r), c),
+        Obs::Proof(None) => "(OProof None)".into(),
+        Obs::Proof(Some((r, p))) => format!("(OProof (Some ({}, {})))", coq_bytes(r), coq_hs(p)),
+        Obs::LoadOk(b) => format!("(OLoad {})", coq_bool(*b)),
+    }
+}
+
+/// run a history on the real storage-backed tree (shared StorageMap so that load works)
+fn run_history_storage(ops: &[Op]) -> Result<Vec<Obs>, String> {
+    guarded(|| {
+        let mut sm = StorageMap::<Tbl>::new();
+        let mut obs = vec![];
+        // The tree borrows the map mutably; to reload we drop the tree and call load on the same map.
+        let mut tree = binary::MerkleTree::new(&mut sm);
+        for o in ops {
+            match o {
+                Op::Push(d) => { tree.push(d).unwrap(); obs.push(Obs::Unit); }
+                Op::Reset => { tree.reset(); obs.push(Obs::Unit); }
+                Op::Root => obs.push(Obs::Root(tree.root(), tree.leaves_count())),
+                Op::Prove(i) => obs.push(Obs::Proof(tree.prove(*i).ok())),
+                Op::Load(k) => {
+                    drop(tree);
+                    match binary::MerkleTree::load(&mut sm, *k) {
+                        Ok(t) => { tree = t; obs.push(Obs::LoadOk(true)); }
+                        Err(_) => { tree = binary::MerkleTree::new(&mut sm); obs.push(Obs::LoadOk(false)); }
+                    }
+                }
+            }
+        }
+        obs
+    })
+}
+
+/// spec: a fresh tree holding exactly `cur` leaves
+fn fresh_obs(cur: &[Vec<u8>], o: &Op) -> Obs {
+    let hs: Vec<[u8; 32]> = cur.iter().map(|l| sha(&[&[0u8], l])).collect();
+    match o {
+        Op::Root => Obs::Root(mth(cur), cur.len() as u64),
+        Op::Prove(i) => {
+            if (*i as usize) < cur.len() { Obs::Proof(Some((mth(cur), rfc_path(*i as usize, &hs)))) } else { Obs::Proof(None) }
+        }
+        _ => Obs::Unit,
+    }
+}
+
+fn c11_case(out: &mut Out, ops: Vec<Op>, class: &str) {
+    out.oracle_evaluations += 1;
+    let rj = json!({"kind":"history","ops":ops.iter().map(op_json).collect::<Vec<_>>()});
+    match run_history_storage(&ops) {
+        Err(p) => {
+            let has_reset = ops.iter().any(|o| matches!(o, Op::Reset));
+            out.oracle_fail(if has_reset { "panic-after-reset" } else { "panic" }, &format!("history panicked: {p}"), rj);
+        }
+        Ok(obs) => {
+            // oracle: compare with the fresh-tree spec
+            let mut cur: Vec<Vec<u8>> = vec![];
+            let mut bad: Option<String> = None;
+            let mut since_reset = false;
+            for (k, o) in ops.iter().enumerate() {
+                match o {
+                    Op::Push(d) => cur.push(d.clone()),
+                    Op::Reset => { cur.clear(); since_reset = true; }
+                    Op::Load(c) => {
+                        let ok = (*c as usize) <= cur.len();
+                        if obs[k] != Obs::LoadOk(ok) && ok {
+                            bad = Some(format!("op {k}: load({c}) failed with {} leaves recorded", cur.len()));
+                        }
+                        if ok { cur.truncate(*c as usize); }
+                    }
+                    _ => {
+                        let want = fresh_obs(&cur, o);
+                        if obs[k] != want && bad.is_none() {
+                            bad = Some(format!("op {k} ({:?}) differs from a fresh tree of {} leaves{}", o, cur.len(), if since_reset { " (after a reset)" } else { "" }));
+                        }
+                    }
+                }
+            }
+            if let Some(b) = bad {
+                let has_reset = ops.iter().any(|o| matches!(o, Op::Reset));
+                out.oracle_fail(if has_reset { "stale-after-reset" } else { "history-differs-from-fresh-tree" }, &b, rj.clone());
+            }
+            let coq_ops: Vec<String> = ops.iter().map(|o| match o {
+                Op::Push(d) => format!("(HPush {})", coq_bytes(d)),
+                Op::Reset => "HReset".into(),
+                Op::Load(k) => format!("(HLoad {})", k),
+                Op::Prove(i) => format!("(HProve {})", i),
+                Op::Root => "HRoot".into(),
+            }).collect();
+            let coq_obs: Vec<String> = obs.iter().map(obs_coq).collect();
+            out.push(Case {
+                coq: format!("(CHistory {} {})", coq_list(&coq_ops), coq_list(&coq_obs)),
+                json: rj,
+                key: format!("{:?}", ops.iter().map(|o| match o { Op::Push(_) => 'p', Op::Reset => 'r', Op::Load(_) => 'l', Op::Prove(_) => 'v', Op::Root => 'o' }).collect::<String>()),
+                nontrivial: ops.len() >= 3,
+                class: class.to_string(),
+            });
+        }
+    }
+}
+
+fn gen_history(rng: &mut Rng, max_ops: usize, with_reset: bool) -> Vec<Op> {
+    let len = rng.range(1, max_ops as u64) as usize;
+    let mut ops = vec![];
+    let mut count: u64 = 0;
+    for _ in 0..len {
+        let o = match rng.below(12) {
+            0..=5 => { count += 1; Op::Push(rng.bytes_upto(4)) }
+            6 => Op::Root,
+            7 | 8 => Op::Prove(match rng.below(4) { 0 => count, 1 => count + 1, _ => rng.below(count.max(1)) }),
+            9 => if with_reset { count = 0; Op::Reset } else { Op::Root },
+            _ => { let k = rng.below(count + 1); count = k; Op::Load(k) }
+        };
+        ops.push(o);
+    }
+    ops.push(Op::Root);
+    if count > 0 { ops.push(Op::Prove(count - 1)); }
+    ops.push(Op::Prove(count));
+    ops
+}
+
+fn run_c11(args: &Args, out: &mut Out) {
+    let mut rng = Rng::new(args.seed);
+    if let Some(p) = &args.replay {
+        let v = read_replay(p);
+        let ops: Vec<Op> = v["ops"].as_array().unwrap().iter().map(op_from_json).collect();
+        c11_case(out, ops, "replay");
+        return;
+    }
+    // corpus: the reset witnesses from DESIGN §7 F4 run first
+    let d = |x: u8| Op::Push(vec![x]);
+    c11_case(out, vec![d(1), d(2), d(3), Op::Reset, Op::Prove(0)], "corpus-reset-prove");
+    c11_case(out, vec![d(1), d(2), d(3), Op::Reset, d(4), d(5), Op::Root, Op::Prove(0), Op::Prove(1), Op::Prove(3)], "corpus-reset-push-prove");
+    c11_case(out, vec![d(1), d(2), d(3), d(4), d(5), Op::Load(3), Op::Root, Op::Prove(2), Op::Prove(3), d(9), Op::Root, Op::Prove(3)], "corpus-load");
+    let n = args.scale(150, 5000);
+    for k in 0..n {
+        let ops = gen_history(&mut rng, if k % 5 == 0 { 40 } else { 14 }, k % 3 != 0);
+        c11_case(out, ops, if k % 3 != 0 { "with-reset" } else { "push-load-prove" });
+    }
+}
+
 fn main() {
     quiet_panics();
     let args = Args::parse();
     let mut out = Out::new();
-    let header = "From FV Require Import Base.Bytes Run.Bmt.\nOpen Scope N_scope.";
+    let header = "From FV Require Import Base.Bytes Merkle.BinaryModel Run.Bmt.\nOpen Scope N_scope.";
     match args.prop.as_str() {
         "C09" => {
             run_c09(&args, &mut out);
             out.write(&args, header, "roots_case", "bad_roots");
+        }
+        "C10" => {
+            run_c10(&args, &mut out);
+            out.write(&args, header, "bcase", "bad_bcases");
+        }
+        "C11" => {
+            run_c11(&args, &mut out);
+            out.write(&args, header, "bcase", "bad_bcases");
         }
         p => {
             eprintln!("bmt: unknown property {p}");
             std::process::exit(2);
         }
     }
-    let _ = (rfc_path as fn(usize, &[[u8; 32]]) -> Vec<[u8; 32]>, rfc_root_from_path as fn([u8; 32], &[[u8; 32]], u64, u64) -> Option<[u8; 32]>);
 }
